@@ -107,6 +107,12 @@ fn any_type_term(t: &Term) -> bool {
     match t {
         Term::Goto(_) | Term::Exit(_) => true,
         Term::Paren(p) => any_type_term(&p.inner),
+        // terms whose type is that of their continuation / branches
+        Term::IfC(i) => any_type_term(&i.thenc) && any_type_term(&i.elsec),
+        Term::Let(l) => any_type_term(&l.in_term),
+        Term::PrintI64(p) => any_type_term(&p.next),
+        Term::Label(l) => any_type_term(&l.term),
+        Term::Case(c) => !c.clauses.is_empty() && c.clauses.iter().all(|cl| any_type_term(&cl.body)),
         _ => false,
     }
 }
